@@ -375,6 +375,9 @@ CHECK = {
         Clause("dense", "canonical dense layouts", cases=dense_cases, check=dense_check),
         Clause("selections", "all ordered k-site selections of a 16-site sub-grid, both encodings, sorted/unsorted, split shanks", cases=select_cases, check=select_check),
         Clause("split-files", "per-shank files written by the converter, opened through the Reader (both bands, both encodings, sorted / unsorted)", cases=splitfile_cases, check=splitfile_check),
+        Clause("folder-neighbours", "the geometry comes from the recording's own metadata: UUID dataset names next to another acquisition's UUID-less metadata, a data file symlinked into a folder "
+               "holding another acquisition's metadata, band names and dots in the folder name (shared with C01)",
+               cases=lambda tier, seed: __import__("checks.c01", fromlist=["x"]).folder_cases(tier, seed), check=lambda case: __import__("checks.c01", fromlist=["x"]).folder_check(case)),
         Clause("full-probe", "384-site layouts in rotated / reversed / striped channel orders", cases=full_cases, check=full_check),
     ],
 }
